@@ -195,12 +195,24 @@ impl InitSuite {
                     private_key: Some(crate::util::to_base62(&privk)),
                     public_key: Some(crate::util::to_base62(&kp.0)),
                     trusted_keys: trusted,
-                    algorithms: vec!["plain".to_string()],
+                    // algos=<name,name,…> as the user writes them in the configuration ("default" = nothing configured); without the field: plain only
+                    algorithms: match f.get("algos") {
+                        Some(l) if *l == "default" => vec![],
+                        Some(l) => l.split(',').map(|x| x.to_string()).collect(),
+                        None => vec!["plain".to_string()],
+                    },
                 };
                 match crate::crypto::Crypto::new(node_id, &cfg) {
                     Ok(crypto) => {
+                        let (plain, ids) = hcom::crypto_algos(&crypto);
+                        let mut parts: Vec<String> = if plain { vec!["plain".to_string()] } else { vec![] };
+                        parts.extend(ids.iter().map(|(id, s)| format!("{}:{:08x}", id, s.to_bits())));
                         self.parties.insert(name, Party { crypto });
-                        Some("ok".to_string())
+                        if f.contains_key("algos") {
+                            Some(format!("ok algos={}", if parts.is_empty() { "-".to_string() } else { parts.join(",") }))
+                        } else {
+                            Some("ok".to_string())
+                        }
                     }
                     Err(_) => Some("err".to_string()),
                 }
